@@ -45,7 +45,19 @@ func init() {
 	stubs["(github.com/cosmos/cosmos-sdk/types/module.Manager).RunMigrations"] = func(e *Exec, fn *ssa.Function, args []Value) Value {
 		e.path.events = append(e.path.events, "RunMigrations")
 		e.Notes["stub module.Manager.RunMigrations: returns the version map it was given; does not touch the aol/did/pnft/burn stores (it holds no reference to their keys)"] = true
-		return Tuple{args[3], nilErr()}
+		// the resulting version map: the given one plus a marker entry, so that a handler
+		// that drops the result of RunMigrations is distinguishable
+		in, _ := args[3].(*MapObj)
+		out := &MapObj{}
+		if in != nil {
+			out = &MapObj{KT: in.KT, VT: in.VT, Keys: append([]Value{}, in.Keys...), Vals: append([]Value{}, in.Vals...)}
+		} else {
+			mt := fn.Signature.Results().At(0).Type().Underlying().(*types.Map)
+			out = &MapObj{KT: mt.Key(), VT: mt.Elem()}
+		}
+		out.Keys = append(out.Keys, constStr("verif:migrated"))
+		out.Vals = append(out.Vals, c1)
+		return Tuple{out, nilErr()}
 	}
 	extraIntrinsics["vFixedMapOrder"] = func(e *Exec, fn *ssa.Function, args []Value) Value {
 		e.path.extra["fixedMapOrder"] = true
